@@ -3,6 +3,7 @@ IndentationRater.load_training_set vs the Lean model (exact rationals), the prop
 weights, and the export / import round trip of rating containers."""
 import fractions
 import json
+import random
 import pathlib
 import shutil
 import tempfile
@@ -13,7 +14,7 @@ import numpy as np
 from core import TRUST_COMMON
 from fitlib import q, qf
 
-MODS = ["Nanite.Props.C15", "Nanite.Audit.C15"]
+MODS = ["Nanite.Props.C15", "Nanite.Audit.C15", "Nanite.Props.C15Mixed", "Nanite.Audit.C15Mixed"]
 VALS = [0.0, 0.125, -0.125, 0.25, 0.5, 1.0, 1.5, 2.5, -3.0, 12.0, 100.0, -0.5, 7.0]
 
 
@@ -164,7 +165,7 @@ def run(ctx):
     ctx.build(MODS, clean=(ctx.tier == "thorough"))
     ctx.grep_audit()
     if ctx.tier == "thorough":
-        ctx.leanchecker(["Nanite.Props.C15"])
+        ctx.leanchecker(["Nanite.Props.C15", "Nanite.Props.C15Mixed"])
     from nanite.rate import IndentationRater
     rng = ctx.rng
     names_all = IndentationRater.get_feature_names(which_type="all")
@@ -243,6 +244,24 @@ def run(ctx):
                      bucket="stream=weights")
             wl.append({"op": "weights", "ys": ys})
             wexp.append(w)
+        # response lists that also hold values outside the rating classes 0..10 (-1: a curve that was not rated):
+        # those samples carry no weight at all, the rated ones share the weight as before (own random stream)
+        g_u = random.Random(ctx.seed * 613 + 11)
+        for i in range(40 if ctx.tier == "quick" else 600):
+            ys = [g_u.choice([0, 3, 7, 10, -1, -1, 11, 12]) for _ in range(g_u.randint(2, 25))]
+            if not any(0 <= v <= 10 for v in ys):
+                ys[0] = 5
+            w = IndentationRater.compute_sample_weight(None, np.array(ys, dtype=float))
+            ctx.case({"weights": ys, "unrated": True}, nontrivial="wu:" + json.dumps(ys), bucket="stream=weights-unrated")
+            rated = [v for v in ys if 0 <= v <= 10]
+            wr = w[[0 <= v <= 10 for v in ys]]
+            if np.any(w[[not (0 <= v <= 10) for v in ys]] != 0):
+                ctx.violation("unrated-sample-has-weight", f"compute_sample_weight gives weight to a response outside "
+                              f"0..10 (ratings {ys}: weights {w.tolist()[:10]})", {"input": {"ratings": ys}})
+            else:
+                weights_oracle(ctx, rated, wr)
+            wl.append({"op": "weights", "ys": ys})
+            wexp.append(w)
         out = ctx.driver("C15", lines + wl)
         if out is not None:
             for meta, (got, X, y), o in zip(metas, expect, out[:len(lines)]):
@@ -270,6 +289,7 @@ def run(ctx):
                 if mw.shape != w.shape or not np.allclose(mw, w, rtol=1e-12, atol=0):
                     ctx.disagree(ln, list(w)[:8], list(mw)[:8], "sample weights")
         export_roundtrip(ctx, tdir)
+        export_folder(ctx, tdir)
     finally:
         shutil.rmtree(tdir, ignore_errors=True)
 
@@ -346,6 +366,56 @@ def export_roundtrip(ctx, tdir):
                       {"history": ["rm = RateManager(h5)", "rm.ratings; rm.datasets", "save_hdf5(curve 0, rating 9)",
                                    "save_hdf5(new curve, rating 1)", "rm.export_training_set(); rm.get_training_set()"],
                        "observed": got, "expected": want})
+
+
+def export_folder(ctx, tdir):
+    """a FOLDER of rating containers (some of them in sub-folders) is one rating source: its export holds every rated
+    curve once, each response next to that curve's features"""
+    from nanite.rate import io as rio
+    from nanite.rate import IndentationRater
+    from nanite.rate.features import IndentationFeatures
+    from props.c16 import Pool, new_container
+    pool = Pool(tdir, ctx.seed + 1)
+    root = tdir / "rating_folder"
+    layout = [("01_first.h5", [0, 1]), ("02_session/second.h5", [2]), ("02_session/deeper/third.h5", [3])]
+    keys = pool.keys()
+    saved = []
+    ratings = [3, 8, 6, 1]
+    with warnings.catch_warnings():
+        warnings.simplefilter("ignore")
+        try:
+            for rel, idxs in layout:
+                h5 = root / rel
+                h5.parent.mkdir(parents=True, exist_ok=True)
+                new_container(h5)
+                for j in idxs:
+                    fi, enum = keys[j % len(keys)]
+                    idnt = pool.get(fi, enum, "A")
+                    rio.save_hdf5(h5, idnt, ratings[j], "ann", "")
+                    saved.append((idnt, float(ratings[j])))
+            rm = rio.RateManager(root)
+            rm.export_training_set(tdir / "ts_export_folder")
+            X, y, fn = IndentationRater.load_training_set(tdir / "ts_export_folder", which_type="all", remove_nan=False,
+                                                          replace_inf=False, impute_zero_rated_nan=False, ret_names=True)
+            X, y = np.atleast_2d(X), np.atleast_1d(y)
+            got = sorted(float(v) for v in y)
+            bad = None
+            if got != sorted(r for _, r in saved):
+                bad = f"responses {got} but the folder holds the ratings {sorted(r for _, r in saved)}"
+            else:
+                for idnt, r in saved:
+                    row = int(np.where(y == r)[0][0])
+                    f3 = np.array([float("%.2e" % v) for v in IndentationFeatures.compute_features(idnt, names=list(fn))])
+                    if not np.allclose(X[row], f3, rtol=1e-12, atol=0, equal_nan=True):
+                        bad = f"the row with response {r} does not hold the features of the curve rated {r}"
+                        break
+        except BaseException as e:  # noqa
+            bad = "raised " + repr(e)
+    ctx.case({"oracle": "export-folder", "containers": [l[0] for l in layout]}, nontrivial="export-folder",
+             bucket="stream=export")
+    if bad:
+        ctx.violation("export-folder", "a folder of rating containers " + str([l[0] for l in layout]) + " exported as a "
+                      "training set: " + bad, {"observed": bad})
 
 
 def replay(ctx, path):
